@@ -453,6 +453,22 @@ let run_case op t =
       let v = next_z t in
       let pr (vals, bits) = join (("ok" :: List.map str_of_z vals) @ List.map b2s bits) in
       (pr (fref_ptr_m v), pr (fref_ptr_spec v))
+  | "wctor" ->
+      let fc = cat_of_code (next_int t) in
+      let a1 = cat_of_code (next_int t) in
+      let a2 = cat_of_code (next_int t) in
+      let how = function Constructed false -> "11" | Constructed true -> "21" | Aliased -> "alias" in
+      let from = function Constructed true -> "1" | _ -> "0" in
+      let pr bf nf =
+        match bf, nf with
+        | Some (f, bs), Some n -> join ([ "ok"; how f ] @ List.map how bs @ [ from f ] @ List.map from bs @ [ how n; from n ])
+        | _, _ -> "ill" in
+      let vk = { cst = false; rf = RNone } in
+      (pr (bindfront_ctor_m fc [ a1; a2 ]) (notfn_ctor_m fc), pr (wrapper_ctor_spec fc [ a1; a2 ]) (init_spec vk fc))
+  | "wrapcopy" ->
+      let x = next_z t in let y = next_z t in
+      let pr ((vals, bits), acc) = join (("ok" :: List.map str_of_z vals) @ List.map b2s bits @ [ str_of_z acc ]) in
+      (pr (wrapcopy_m x y), pr (wrapcopy_spec x y))
   | "frefwf" ->
       let q = next_int t in
       let a = cat_of_code (next_int t) in
